@@ -358,6 +358,12 @@ pub fn gen(rng: &mut Rng, quick: bool) -> Content {
         entries[1].1 = k0;
     }
     let mut title = title;
+    if rng.chance(1, 10) {
+        // the shape the games' own files use (MESS_ARCHIVE_<name>), also bare and repeated
+        let reps = 1 + rng.below(3);
+        let rest = if rng.chance(1, 4) { String::new() } else { title.clone() };
+        title = format!("{}{}", "MESS_ARCHIVE_".repeat(reps), rest);
+    }
     if !cfg!(miri) && rng.chance(1, 12) {
         // a Shift-JIS string longer than 1 KiB, two-byte characters at every alignment
         let len = rng.range(520, 1400);
